@@ -71,6 +71,11 @@ class TVCheck:
         r = self.an.analyse(prog)
         if self.has_problem(r):
             app = kfmod.applicable(self.findings, prog)
+            if app and "must_raise" in prog.tags and not any(f.get("patch") for f in app):
+                # finding identified purely by its failing inputs (predicate): nothing to re-discharge
+                s = summarize(r, kf_ids=[f["id"] for f in app])
+                s["attributed"] = True
+                return s
             if app:
                 patches = [f["patch"] for f in app if f.get("patch")]
                 r2 = self.an.analyse(prog, patches=patches)
